@@ -1477,6 +1477,11 @@ let container_to_table sp vars =
 
 type flinker = { lname : cell; lmodel : fmodel; lsubs : (cell * fmodel) list }
 
+(** val linker_name_free : cell -> (cell * fmodel) list -> bool **)
+
+let linker_name_free name subs =
+  negb (existsb (fun km -> cell_eqb name (fst km)) subs)
+
 (** val dset : cell -> 'a1 -> (cell * 'a1) list -> (cell * 'a1) list **)
 
 let rec dset k v = function
@@ -1875,12 +1880,11 @@ let convert_to_int_or_none = function
      (match z_of_f64 f with
       | Some z0 -> TOk (Some (IInt z0))
       | None -> TUnmodelled))
-| CInt z0 ->
-  if (||) (in_int64 z0) (in_uint64 z0)
-  then TOk (Some (IInt z0))
-  else TErr TypeError
+| CInt z0 -> TOk (Some (IInt z0))
 | CBool b -> TOk (Some (IInt (if b then Zpos XH else Z0)))
-| _ -> TErr TypeError
+| CStr s -> if plain_text s then TErr ValueError else TUnmodelled
+| CTup (_, _) -> TErr TypeError
+| _ -> TUnmodelled
 
 (** val convert_to_str_or_none : cell -> char list option **)
 
